@@ -206,6 +206,15 @@ def check_exec_batch(probe, box, strs, res, position):
         ea, ee = expected[i]
         if argv_groups[i] == ["__CONVERT_FAILED__"]:
             continue
+        # the real `exec` builtin reads leading words that start with a dash as ITS options (up to a `--`), the function that
+        # stands in for it here does not: model it
+        got = argv_groups[i]
+        if got[:1] == ["--"]:
+            got = got[1:]
+        elif got and got[0].startswith("-"):
+            res.violation(["exec-command-read-as-option", position], {"position": position, "string": s}, {"argv": got[:6]})
+            continue
+        argv_groups[i] = got
         if argv_groups[i] != ea:
             res.violation(["argv-altered", position, sig_chars(s)], {"position": position, "string": s}, {"expected": ea, "got": argv_groups[i][:8]})
             continue
@@ -315,7 +324,7 @@ def task(args):
             allstr = [s for i, s in enumerate(strings_exhaustive(maxlen)) if i % nshards == idx]
             r = core.rng_for(seed, "c08", idx)
             if idx == 0:
-                allstr += CANARIES
+                allstr += CANARIES + ["-a", "-c", "--", "-", "-l x", "--version", "-a b", "-\u00e9"]
             allstr += [rand_unicode(r).replace("\x00", "") for _ in range(nrand)]
             # a few words far longer than any buffer, with the significant characters sprinkled in
             for n in r.sample([4095, 4096, 4097, 8192, 20000, 65536, 70000], 2):
